@@ -26,6 +26,14 @@
 (*    computes the hash of the image given and writes a new authorization  *)
 (*    over whatever is there.                                              *)
 (*                                                                         *)
+(* Size classes (all modes): Env also picks a size class -- when the file  *)
+(*    is complete in mode "image", at the start in the other modes.  In    *)
+(*    the model a byte of an area is a unit; UnitLens[class][unit] is its  *)
+(*    real length (1 for "small"; areas of 4096 / 8192 / 12288 bytes for   *)
+(*    "page-multiple", 65536 for "zone-multiple", one less / one more for  *)
+(*    "one-below" / "one-above").  The replay writes the image with those  *)
+(*    lengths; HashedLength states the size-sensitive part of the property.*)
+(*                                                                         *)
 (* Variant # "ok" swaps in a defective Sys; used only by the negative      *)
 (* configurations (each invariant must be violated by its variant).        *)
 (***************************************************************************)
@@ -42,9 +50,12 @@ CONSTANTS Images,      \* set of images; an image is a set of areas [z, o, d]
           Iters,       \* auth mode: iterations Env may ask for
           OutPaths,    \* auth mode: 0 = print, n > 0 = the n-th -o path
           MaxSteps,    \* auth mode: invocations in a row
-          Variant      \* "ok" | "reuse" | "leak" | "signpath" | "twopubs" | "fileorder" | "stale"
+          SizeClasses, \* subset of DOMAIN UnitLens
+          UnitLens,    \* size class -> sequence: unit id -> real length in bytes
+          Variant      \* "ok" | "reuse" | "leak" | "signpath" | "twopubs" | "fileorder" | "stale" | "tailtwice"
 
 VARIABLES mode,
+          size,        \* the size class Env picked ("none": not yet)
           \* ---- image mode
           img,         \* the image being written
           pending,     \* data records [z, a, d] not yet in the file
@@ -64,7 +75,7 @@ VARIABLES mode,
 ivars == <<img, pending, file, wzone, extra, p, done>>
 svars == <<pc, run, plan, cur, sk, fresh, gens, fs, idx, h, sig, outleak, obs>>
 avars == <<afs, apre, astep, alast, aplan>>
-vars  == <<mode, ivars, svars, avars>>
+vars  == <<mode, size, ivars, svars, avars>>
 
 (***************************************************************************)
 (* image mode                                                              *)
@@ -100,6 +111,7 @@ AuthIdle == /\ afs = [o \in APaths |-> NoAuth] /\ apre = afs /\ astep = 0 /\ ala
             /\ aplan = <<>>
 
 Init == /\ mode \in Modes
+        /\ IF mode = "image" THEN size = "none" ELSE size \in SizeClasses
         /\ IF mode = "image"
            THEN /\ img \in Images
                 /\ pending \in AllCuts(SetToSeq(img))
@@ -122,20 +134,28 @@ SelectZone == /\ mode = "image" /\ ~done
                     /\ IF needed THEN TRUE ELSE extra > 0
                     /\ extra' = IF needed THEN extra ELSE extra - 1
                     /\ wzone' = z /\ Put(Ela(z))
-              /\ UNCHANGED <<mode, img, pending, done, svars, avars>>
+              /\ UNCHANGED <<mode, size, img, pending, done, svars, avars>>
 
 WriteData == /\ mode = "image" /\ ~done
              /\ \E r \in pending :
                    /\ r.z = wzone
                    /\ pending' = pending \ {r} /\ Put(Data(r.a, r.d))
-             /\ UNCHANGED <<mode, img, wzone, extra, done, svars, avars>>
+             /\ UNCHANGED <<mode, size, img, wzone, extra, done, svars, avars>>
 
 WriteEof == /\ mode = "image" /\ ~done /\ pending = {}
-            /\ Put(Eof) /\ done' = TRUE
+            /\ Put(Eof) /\ done' = TRUE /\ size' \in SizeClasses
             /\ UNCHANGED <<mode, img, pending, wzone, extra, svars, avars>>
 
 \* what compute_app_hash feeds to SHA-256 once the file is complete
-HashInput == IF Variant = "fileorder" THEN FileOrderInput(file) ELSE HashInputP(p)
+\* "tailtwice": block-wise hashing whose remainder step takes the whole area when the area is an
+\* exact number of 4096-byte blocks
+RECURSIVE TailTwice(_)
+TailTwice(as) == IF as = <<>> THEN <<>>
+                 ELSE (IF WLen(Head(as).d, UnitLens[size]) % 4096 = 0
+                       THEN Head(as).d \o Head(as).d ELSE Head(as).d) \o TailTwice(Tail(as))
+HashInput == IF Variant = "fileorder" THEN FileOrderInput(file)
+             ELSE IF Variant = "tailtwice" THEN TailTwice(PAreas(p))
+             ELSE HashInputP(p)
 
 (***************************************************************************)
 (* sign mode                                                               *)
@@ -159,14 +179,14 @@ StartRun == /\ mode = "sign" /\ pc \in {"idle", "exited"} /\ run < MaxRuns
             /\ run' = run + 1 /\ pc' = "gen" /\ gens' = <<>> /\ idx' = 1 /\ outleak' = FALSE
             /\ fs' = {[f EXCEPT !.w = FALSE] : f \in (IF run = 0 THEN ImgFiles ELSE fs)}
             /\ obs' = IF pc = "exited" THEN ObserveRun(obs, RunRec) ELSE obs
-            /\ UNCHANGED <<mode, avars, ivars, sk, fresh, h, sig>>
+            /\ UNCHANGED <<mode, size, avars, ivars, sk, fresh, h, sig>>
 
 GenKey == /\ mode = "sign" /\ pc = "gen"
           /\ IF Variant = "reuse" /\ sk # 0
              THEN UNCHANGED <<sk, fresh, gens>>          \* a module-level key survives the run
              ELSE sk' = fresh /\ fresh' = fresh + 1 /\ gens' = Append(gens, fresh)
           /\ pc' = "wpub"
-          /\ UNCHANGED <<mode, avars, ivars, run, plan, cur, fs, idx, h, sig, outleak, obs>>
+          /\ UNCHANGED <<mode, size, avars, ivars, run, plan, cur, fs, idx, h, sig, outleak, obs>>
 
 WritePub == /\ mode = "sign" /\ pc = "wpub"
             /\ LET f1 == Write(fs, FileRec(cur.pub, "pub", sk, 0, 0, FALSE))
@@ -177,26 +197,26 @@ WritePub == /\ mode = "sign" /\ pc = "wpub"
                          ELSE f1
                IN fs' = f2
             /\ pc' = "hash"
-            /\ UNCHANGED <<mode, avars, ivars, run, plan, cur, sk, fresh, gens, idx, h, sig, outleak, obs>>
+            /\ UNCHANGED <<mode, size, avars, ivars, run, plan, cur, sk, fresh, gens, idx, h, sig, outleak, obs>>
 
 \* compute_app_hash(image) -- by HashInputOk (image mode) a function of the content only
 HashI == /\ mode = "sign" /\ pc = "hash"
          /\ h' = Contents[cur.imgs[idx]] /\ pc' = "sign"
-         /\ UNCHANGED <<mode, avars, ivars, run, plan, cur, sk, fresh, gens, fs, idx, sig, outleak, obs>>
+         /\ UNCHANGED <<mode, size, avars, ivars, run, plan, cur, sk, fresh, gens, fs, idx, sig, outleak, obs>>
 
 SignI == /\ mode = "sign" /\ pc = "sign"
          /\ sig' = [by |-> sk, over |-> IF Variant = "signpath" THEN 0 ELSE h]
          /\ pc' = "wsig"
-         /\ UNCHANGED <<mode, avars, ivars, run, plan, cur, sk, fresh, gens, fs, idx, h, outleak, obs>>
+         /\ UNCHANGED <<mode, size, avars, ivars, run, plan, cur, sk, fresh, gens, fs, idx, h, outleak, obs>>
 
 WriteSigI == /\ mode = "sign" /\ pc = "wsig"
              /\ fs' = Write(fs, FileRec(SigPath(cur.imgs[idx]), "sig", 0, sig.by, sig.over, FALSE))
              /\ idx' = idx + 1
              /\ pc' = IF idx = Len(cur.imgs) THEN "exit" ELSE "hash"
-             /\ UNCHANGED <<mode, avars, ivars, run, plan, cur, sk, fresh, gens, h, sig, outleak, obs>>
+             /\ UNCHANGED <<mode, size, avars, ivars, run, plan, cur, sk, fresh, gens, h, sig, outleak, obs>>
 
 Exit == /\ mode = "sign" /\ pc = "exit" /\ pc' = "exited"
-        /\ UNCHANGED <<mode, avars, ivars, run, plan, cur, sk, fresh, gens, fs, idx, h, sig, outleak, obs>>
+        /\ UNCHANGED <<mode, size, avars, ivars, run, plan, cur, sk, fresh, gens, fs, idx, h, sig, outleak, obs>>
 
 (***************************************************************************)
 (* auth mode                                                               *)
@@ -213,7 +233,7 @@ Message == /\ mode = "auth" /\ astep < MaxSteps
                                 hash |-> wr.hash, gotiter |-> wr.gotiter]
                    /\ aplan' = Append(aplan, [img |-> i, iter |-> it, out |-> o])
            /\ astep' = astep + 1
-           /\ UNCHANGED <<mode, ivars, svars, apre>>
+           /\ UNCHANGED <<mode, size, ivars, svars, apre>>
 
 Next == Message \/ SelectZone \/ WriteData \/ WriteEof
         \/ StartRun \/ GenKey \/ WritePub \/ HashI \/ SignI \/ WriteSigI \/ Exit
@@ -225,6 +245,7 @@ Spec == Init /\ [][Next]_vars
 Exited == mode = "sign" /\ pc = "exited"
 
 HashInputOk    == done => (~p.err /\ HashInputOkP(img, HashInput))
+HashedLength   == done => HashedLengthP(ImageLen(img, UnitLens[size]), WLen(HashInput, UnitLens[size]))
 SinglePub      == Exited => SinglePubP(RunRec)
 SigVerifies    == Exited => AllSigsVerifyP(RunRec, Contents)
 PrivNotWritten == (mode = "sign") => PrivNotWrittenP(RunRec)
